@@ -192,6 +192,7 @@ func main() {
 	}
 	if only == "" {
 		cachedHashProbe(c, r)
+		rpcOracle = or
 		runRPC(c, r.Fork(0x10))
 	}
 	c.Extra["term_evaluations_memoised"] = len(termMemo)
